@@ -302,3 +302,42 @@ modifier_template!(c13_q_modtmpl_fallback_last, b"fallbac?");
 modifier_template!(c13_q_modtmpl_fallback_first, b"?allback");
 modifier_template!(c13_t_modtmpl_psk_three, b"psk???");
 modifier_template!(c13_t_modtmpl_ppsk, b"?psk1");
+
+/// Modifier LIST templates (duplicate detection across non-adjacent positions, empty segments).
+macro_rules! modlist_template {
+    ($name:ident, $tmpl:expr) => {
+        #[kani::proof]
+        #[kani::unwind(19)]
+        #[kani::stub(core::slice::memchr::memchr, naive_memchr)]
+        pub fn $name() {
+            const T: &[u8] = $tmpl;
+            let mut b = [0u8; T.len()];
+            let mut i = 0;
+            while i < T.len() {
+                b[i] = if T[i] == b'?' { hole() } else { T[i] };
+                i += 1;
+            }
+            // holes are not separators here (the split points stay concrete; separator holes have their own template)
+            let mut i = 0;
+            while i < T.len() {
+                if T[i] == b'?' && T.len() != 9 {
+                    kani::assume(b[i] != b'+');
+                }
+                i += 1;
+            }
+            let s = unsafe { core::str::from_utf8_unchecked(&b) };
+            let r: Result<HandshakeModifierList, Error> = s.parse();
+            let want = grammar::modifiers(&b);
+            kani::cover!(true, "C13 modifier list template reached");
+            assert!(r.is_ok() == want.is_some(), "C13: modifier list accepted iff the grammar accepts it (non-duplicate, '+'-separated)");
+            assert!(r.is_ok() || is_pattern_err(&r), "C13: rejection must be a pattern error");
+            if let (Ok(l), Some((w, n))) = (&r, &want) {
+                assert!(same_mods(&l.list, w, *n), "C13: parsed modifiers differ from the named ones");
+            }
+        }
+    };
+}
+modlist_template!(c13_t_modlist_tmpl_aba, b"psk1+psk2+psk?");
+modlist_template!(c13_t_modlist_tmpl_ab, b"psk?+psk?");
+modlist_template!(c13_t_modlist_tmpl_fallback_mid, b"psk?+fallback+psk?");
+modlist_template!(c13_t_modlist_tmpl_sep, b"psk1?psk2");
